@@ -105,9 +105,11 @@ inline std::string genPositionCmd(Choices& c, GenState& st, const GenCfg& cfg) {
     else {
         std::string fen;
         if (kind < 8) fen = c.of(gen::seedFens());
-        else if (kind == 8 && cfg.allowTbRoots) {
+        else if (kind >= 8 && cfg.allowTbRoots && (kind == 8 || c.flip())) {
             static const std::vector<std::string> tb = {"8/8/8/4k3/8/8/3K4/1Q6 w - - 0 1", "8/8/4k3/8/8/3K4/8/R7 b - - 3 40",
-                "8/8/8/3k4/8/8/3K4/BN6 w - - 0 1", "6k1/8/8/8/8/8/8/KQ5r w - - 0 1", "8/8/8/8/4k3/8/7r/K1R5 b - - 10 60"};
+                "8/8/8/3k4/8/8/3K4/BN6 w - - 0 1", "6k1/8/8/8/8/8/8/KQ5r w - - 0 1", "8/8/8/8/4k3/8/7r/K1R5 b - - 10 60",
+                "7k/5Q2/6K1/8/8/8/8/8 b - - 0 1", "R5k1/5ppp/8/8/8/8/8/6K1 b - - 0 1", "k7/8/1K6/8/8/8/8/7R w - - 0 1",
+                "rnb1kbnr/pppp1ppp/8/4p3/6Pq/5P2/PPPPP2P/RNBQKBNR w KQkq - 1 3", "8/8/8/8/8/2k5/8/K7 w - - 0 1"};
             fen = c.of(tb);
         } else {
             gen::Placed pl = gen::place(c);
@@ -183,6 +185,7 @@ inline std::string genSetOption(Choices& c, const std::vector<Option>& opts, con
         if (o.name == "Threads") capHi = std::min<long long>(hi, cfg.maxThreads);
         if (o.name == "GaviotaTbCache") capHi = std::min<long long>(hi, 64);
         if (o.name == "MultiPV") capHi = std::min<long long>(hi, 8);
+        bool npsGuard = o.name == "MaxNPS"; // accepted values 1..999 make a search sleep for minutes between stop tests
         long long v;
         if (k <= 4) v = lo + (long long)c.pick((int)std::min<long long>(capHi - lo + 1, 1 << 20));
         else if (k == 5) v = lo;
@@ -191,6 +194,7 @@ inline std::string genSetOption(Choices& c, const std::vector<Option>& opts, con
         else if (k == 8) return s + c.of(std::vector<std::string>{"abc", "", "1e3", "0x10", "--1", "99999999999999999999"});
         else v = o.def;
         if (o.name == "Threads" && v >= lo && v <= hi) v = std::max<long long>(v, std::min<long long>(cfg.minThreads, capHi));
+        if (npsGuard && v > 0 && v < 1000) v += 1000;
         return s + std::to_string(v);
     }
     if (o.type == "string") {
@@ -212,6 +216,7 @@ inline Session genSession(Choices& c, const std::vector<Option>& opts, const Gen
         else if (k == 3) { cmd.pace = P_DEPTH; cmd.paceArg = c.range(1, 5); }
         else if (k == 4) { cmd.pace = P_SLEEP; cmd.paceArg = c.range(1, 60); }
         else if (k == 5) cmd.pace = P_NOW;
+        else if (st.pondering) { cmd.pace = P_SLEEP; cmd.paceArg = c.range(20, 200); }
         else cmd.pace = P_BESTMOVE;
     };
     bool ended = false;
@@ -233,7 +238,7 @@ inline Session genSession(Choices& c, const std::vector<Option>& opts, const Gen
         else if (k < 98) { cmd.kind = "quit"; cmd.text = "quit"; ended = true; }
         else { cmd.kind = "eof"; cmd.text = "<EOF>"; ended = true; }
         paceFor(cmd);
-        if (cmd.kind == "go") { st.searching = true; st.pondering = cmd.goPonder; }
+        if (cmd.kind == "go") { st.searching = true; st.pondering = cmd.goPonder || cmd.goInfinite; }
         if (cmd.kind == "stop") { st.searching = false; st.pondering = false; }
         s.cmds.push_back(cmd);
     }
@@ -250,7 +255,7 @@ inline Session genSession(Choices& c, const std::vector<Option>& opts, const Gen
 struct RunCfg {
     std::string exe, net, stderrPath;
     std::vector<std::string> env;
-    int exitTimeoutMs = 60000;
+    int exitTimeoutMs = 45000;
 };
 
 struct RunResult {
@@ -291,15 +296,21 @@ inline RunResult execute(const Session& s, const RunCfg& rc) {
         if (c.kind == "go") goSent++;
     }
     // the generator always ends a session with quit or EOF
-    long lastTicks = e.cpuTicks();
-    long long lastProgress = uci::nowMs(), start = lastProgress;
+    // Hang rule: not exited exitTimeoutMs after quit/EOF and the process used < 5 % of one core during the last
+    // 20 s (blocked, or only a sleep-polling loop is alive).  Still burning CPU => inconclusive.
+    std::vector<std::pair<long long, long>> samples; // (time, ticks)
+    long long start = uci::nowMs();
+    long tps = sysconf(_SC_CLK_TCK);
     while (!e.tryReap()) {
         e.pump(50);
-        long t = e.cpuTicks();
-        if (t != lastTicks) { lastTicks = t; lastProgress = uci::nowMs(); }
         long long now = uci::nowMs();
-        if (now - lastProgress >= 20000) { r.hang = true; break; }
-        if (now - start >= rc.exitTimeoutMs) { r.stillBusy = true; break; }
+        if (samples.empty() || now - samples.back().first >= 1000) samples.push_back({now, e.cpuTicks()});
+        if (now - start >= rc.exitTimeoutMs) {
+            long used = -1;
+            for (auto& sm : samples) if (now - sm.first <= 20500) { used = samples.back().second - sm.second; break; }
+            if (used >= 0 && used < tps) r.hang = true; else r.stillBusy = true;
+            break;
+        }
     }
     if (e.reaped) { e.waitExit(1000); r.exited = true; r.cleanExit = e.exitedCleanly(); }
     r.exitDesc = e.exitDesc();
@@ -315,7 +326,7 @@ inline RunResult execute(const Session& s, const RunCfg& rc) {
 inline std::string monitor(const Session& s, const RunResult& r, bool& inconclusive) {
     inconclusive = false;
     if (r.stillBusy) { inconclusive = true; return ""; }
-    if (r.hang) return "hang: process did not exit after quit/EOF and made no CPU progress for 20 s (" + r.exitDesc + ")";
+    if (r.hang) return "hang: process did not exit within 45 s of quit/EOF and used < 5% of one core during the last 20 s (" + r.exitDesc + ")";
     if (!r.exited) return "process did not exit";
     if (r.stderrText.find("Sanitizer") != std::string::npos || r.stderrText.find("runtime error:") != std::string::npos)
         return "sanitizer report: " + r.stderrText.substr(0, 600);
